@@ -132,6 +132,28 @@ CHECKS = {
             "Host target only; C++ bases/template arguments as use positions are not generated; stand-in sizes come from the clang "
             "probe.",
             "6/C10"),
+    "C02": ("exploration",
+            "exhaustive enumeration of records (<=2 members over 30 member atoms x 12 record attributes x struct/union, member "
+            "attributes; 3-member records over a sub-alphabet in the thorough tier), each observed by a clang-built and a "
+            "rustc-built probe over the real bindings, under the default options and 16 presentation options",
+            "For every record both compilers print size, alignment, member offsets and sizes; both sides store the same boundary "
+            "values into a zeroed object and the object bytes and the values read back (signedness, width) must be identical; every "
+            "presentation option is re-run and must not move any number.",
+            "Host target only; values are boundary values per member kind; records whose bindings rustc rejects are left to C01; "
+            "known unrepresentable families (packed+over-aligned, explicit padding with bit-fields) are attributed by structural "
+            "predicate.",
+            "6/C02"),
+    "C01": ("exploration",
+            "exhaustive enumeration of the record family x 7 use contexts, a C++ name-collision family and 30 C++ shapes, x 35 option "
+            "rows within one deviation; plus every repository header; each compiled by rustc 1.95 (--emit=metadata evaluates the "
+            "embedded const assertions)",
+            "The bindings the real generator emits for every case and option row are type-checked by rustc for the selected "
+            "edition, embedded layout assertions included; failures are attributed to single cases through rustc's JSON spans and "
+            "re-generation without the offending cases.",
+            "Headers needing a callback, an external crate or nightly features are skipped by rule; mutants of repository headers "
+            "are exercised for panic-freedom by C12 rather than compiled; known unrepresentable shapes are attributed by "
+            "(error codes, structural class).",
+            "6/C01"),
 }
 
 NOT_YET = "check not built yet in this round (see DESIGN.md section 10a for the plan)"
